@@ -140,3 +140,26 @@ Theorem C04_cluster_pipeline_stationary_complete_space : forall bonds nv L beta,
         (pipeline_cfg (update_cfg (met_update (qmc_ham bonds) beta))).
 Proof. intros bonds nv L beta Hs Hr. exact (metropolis_pipeline_stationary_canon (qmc_ham bonds) Hs nv L Hr beta). Qed.
 Print Assumptions C04_cluster_pipeline_stationary_complete_space.
+
+(* The start of the directed loop (after fix 88da00a: uniform over the legs of ALL stored operators).  The model's
+   loop update is "draw a start, run the loop from it", and every leg of every stored operator is the starting leg
+   with the same probability 1 / (2 * number of variable slots) whatever the arity of its operator — so a loop and
+   its reverse (which starts at the other end of the first link, possibly on an operator of another arity) are
+   proposed with the same start probability.  Before the fix the probability was 1 / (n * 2k): not symmetric for
+   interaction sets of mixed arity (defect found in round 6, §4 of DESIGN.md). *)
+From QmcV Require Import Proofs.LoopStart.
+Theorem C04_loop_update_is_start_then_loop : forall fuel H sl st,
+  denote (loop_update fuel H sl st) = denote (bind (loop_start sl) (loop_from fuel H sl st)).
+Proof. exact loop_update_is_start_then_loop. Qed.
+Print Assumptions C04_loop_update_is_start_then_loop.
+
+Theorem C04_loop_start_uniform_over_legs : forall sl p v d,
+  In (p, v) (var_slots sl) ->
+  (mass (is_start p v d) (denote (loop_start sl)) == 1 / ((2 # 1) * (Z.of_nat (length (var_slots sl)) # 1)))%Q.
+Proof. exact loop_start_uniform. Qed.
+Print Assumptions C04_loop_start_uniform_over_legs.
+
+Theorem C04_loop_start_slots_are_the_legs : forall sl p v,
+  In (p, v) (var_slots sl) <-> exists o, get_op sl p = Some o /\ (v < length (o_vars o))%nat.
+Proof. exact var_slots_in. Qed.
+Print Assumptions C04_loop_start_slots_are_the_legs.
